@@ -1,6 +1,7 @@
 package displayp3
 
 import (
+	"bytes"
 	"image"
 	"image/color"
 	"sync"
@@ -9,6 +10,12 @@ import (
 	prismlinear "github.com/mandykoh/prism/linear"
 
 	"github.com/mandykoh/prism/adobergb"
+	"github.com/mandykoh/prism/cielab"
+	"github.com/mandykoh/prism/ciexyz"
+	"github.com/mandykoh/prism/meta/autometa"
+	"github.com/mandykoh/prism/meta/jpegmeta"
+	"github.com/mandykoh/prism/meta/pngmeta"
+	"github.com/mandykoh/prism/meta/webpmeta"
 	"github.com/mandykoh/prism/prophotorgb"
 	"github.com/mandykoh/prism/srgb"
 )
@@ -29,17 +36,52 @@ func verifLazyCall(which int) {
 		_ = prophotorgb.To16Bit(0)
 	case 6:
 		_ = LineariseColor(color.RGBA64{A: 65535})
-	default:
+	case 7:
 		_ = EncodeColor(color.RGBA64{A: 65535})
+	case 8:
+		_ = ciexyz.AdaptBetweenXYZWhitePoints(ciexyz.Color{X: 0.95, Y: 1, Z: 1.09}, ciexyz.Color{X: 0.96, Y: 1, Z: 0.82})
+	case 9:
+		_ = ciexyz.AdaptBetweenXYYWhitePoints(StandardWhitePoint, prophotorgb.StandardWhitePoint)
+	case 10:
+		_ = ciexyz.Color{X: 0.2, Y: 0.3, Z: 0.1}.ToLAB(ciexyz.Color{X: 0.96, Y: 1, Z: 0.82})
+		_ = ciexyz.ColorFromLAB(cielab.Color{L: 50, A: 10, B: -10}, ciexyz.Color{X: 0.96, Y: 1, Z: 0.82})
+	case 11:
+		_ = srgb.ColorFromXYZ(srgb.ColorFromLinear(0.2, 0.3, 0.4).ToXYZ())
+		_ = srgb.From8Bit(7) + float32(srgb.To8Bit(0.3))
+	case 12:
+		_ = adobergb.ColorFromXYZ(adobergb.ColorFromLinear(0.2, 0.3, 0.4).ToXYZ())
+		_ = adobergb.From8Bit(7) + float32(adobergb.To8Bit(0.3))
+	case 13:
+		_ = prophotorgb.ColorFromXYZ(prophotorgb.ColorFromLinear(0.2, 0.3, 0.4).ToXYZ())
+		_ = prophotorgb.From8Bit(7) + float32(prophotorgb.To8Bit(0.3))
+	case 14:
+		_ = ColorFromXYZ(ColorFromLinear(0.2, 0.3, 0.4).ToXYZ())
+		c, a := ColorFromNRGBA(color.NRGBA{R: 1, G: 2, B: 3, A: 200})
+		_ = c.ToRGBA64(a)
+	case 15:
+		_, _, _ = pngmeta.Load(bytes.NewReader(verifTinyPNG))
+	case 16:
+		_, _, _ = jpegmeta.Load(bytes.NewReader(verifTinyJPEG))
+	case 17:
+		_, _, _ = webpmeta.Load(bytes.NewReader(verifTinyWebP))
+	default:
+		_, _, _ = autometa.Load(bytes.NewReader(verifTinyWebP))
 	}
 }
+
+// verifLazyN is the number of entry points of verifLazyCall.
+const verifLazyN = 19
+
+var verifTinyPNG = []byte{0x89, 'P', 'N', 'G', 0x0d, 0x0a, 0x1a, 0x0a, 0, 0, 0, 13, 'I', 'H', 'D', 'R', 0, 0, 0, 3, 0, 0, 0, 2, 8, 2, 0, 0, 0, 1, 2, 3, 4, 0, 0, 0, 0, 'I', 'D', 'A', 'T', 0, 0, 0, 0}
+var verifTinyJPEG = []byte{0xff, 0xd8, 0xff, 0xc0, 0, 17, 8, 0, 2, 0, 3, 3, 1, 0x11, 0, 2, 0x11, 0, 3, 0x11, 0, 0xff, 0xda, 0, 2}
+var verifTinyWebP = []byte{'R', 'I', 'F', 'F', 17, 0, 0, 0, 'W', 'E', 'B', 'P', 'V', 'P', '8', 'L', 5, 0, 0, 0, 0x2f, 2, 0x40, 0, 0}
 
 // VerifHarness_C11_Lazy records, for each lazily initialised function, the memory
 // accesses and synchronisation events of the very first call (tables absent) and of a
 // later call; the check builds the happens-before problem for concurrent callers from
 // these logs (DESIGN 5 C11).
 func VerifHarness_C11_Lazy() {
-	which := verifChoice(8)
+	which := verifChoice(verifLazyN)
 	verifLogBegin("first")
 	verifLazyCall(which)
 	verifLogEnd()
@@ -66,7 +108,10 @@ func VerifHarness_C11_Workers() {
 	default:
 		dst = image.NewNRGBA(image.Rect(0, 0, 2, 4))
 	}
-	f := func(c color.Color) color.RGBA64 { r, g, b, a := c.RGBA(); return color.RGBA64{uint16(r), uint16(g), uint16(b), uint16(a)} }
+	f := func(c color.Color) color.RGBA64 {
+		r, g, b, a := c.RGBA()
+		return color.RGBA64{uint16(r), uint16(g), uint16(b), uint16(a)}
+	}
 	verifLogBegin("workers")
 	prismlinear.TransformImageColor(dst, src, 3, f)
 	verifLogEnd()
@@ -107,7 +152,7 @@ func VerifHarness_C11_NativeWorkers() {
 // VerifHarness_C11_NativeRace (native replay only, run under the race detector in a fresh
 // process): many goroutines make their very first call concurrently.
 func VerifHarness_C11_NativeRace() {
-	which := verifChoice(8)
+	which := verifChoice(verifLazyN)
 	var wg sync.WaitGroup
 	start := make(chan struct{})
 	for i := 0; i < 8; i++ {
